@@ -29,7 +29,15 @@ Inductive cevent :=
 | Ev_offer (failed : bool)        (* EventOnOfferCreated{Error} *)
 | Ev_rendezvous (failed : bool)   (* EventOnBrokerRendezvous{Error} *)
 | Ev_connected                    (* EventOnSnowflakeConnected (OnOpen callback) *)
-| Ev_failed.                      (* EventOnSnowflakeConnectionFailed *)
+| Ev_failed (haserr : bool).      (* EventOnSnowflakeConnectionFailed{Error}; haserr = Error is not nil *)
+
+(* What a listener that renders the event does (client/snowflake.go ptEventLogger: pt.Log(..., e.String())).
+   common/event: String() of the offer / rendezvous events tests Error != nil first; String() of the
+   connected event has no argument; String() of EventOnSnowflakeConnectionFailed calls e.Error.Error()
+   unconditionally - a nil Error is a nil-pointer panic on the goroutine that emitted the event
+   (the collecting goroutine of connectLoop: the client process ends). *)
+Definition render_ok (e : cevent) : bool :=
+  match e with Ev_failed false => false | _ => true end.
 
 (* a resource is None (never acquired) or Some closed? *)
 Record cstate := mkC {
@@ -79,7 +87,7 @@ Definition connect (v : cversion) (o : outcomes) (c : cstate) : cresult * cstate
         if negb (o_negotiate o) then (Conn_Err, c4)
         else if negb (o_setremote o) then (Conn_Err, c4)
         else if negb (o_open o) then
-          (Conn_Err, add_event (with_dc c4 (close_res (dc c4))) Ev_failed)   (* c.transport.Close() *)
+          (Conn_Err, add_event (with_dc c4 (close_res (dc c4))) (Ev_failed true))   (* c.transport.Close(); err = errors.New(...) *)
         else
           let c5 := add_event c4 Ev_connected in
           (Conn_Ok, mkC (pc c5) (dc c5) (pipe_closed c5) (peer_closed c5) (events c5) (rv_calls c5) true)
